@@ -104,7 +104,18 @@ def r07_4(ctx):
                                               smf.Ev('meta', 'end_of_track', {}, 7)])):
             smf.check_scenario(ctx, ai, f'time:{label}-end_of_track-{pos}', evs, m, expect_write_error='ValueError')
             n += 1
-    ctx.floor('R07.4', n, 30)
+    # ... and the other way round: a negative (or non-integer) time on the message *behind* an end_of_track in the middle,
+    # which the delta carried over from the removed end_of_track would make look valid
+    for bad, label in ((-3, 'negative'), (2.5, 'float'), (-10, 'negative, cancels the carried delta')):
+        for pos, evs in (('after-eot', [smf.Ev('message', 'note_on', smf.msg_attrs('note_on', '1'), 0), smf.Ev('meta', 'end_of_track', {}, 10),
+                                        smf.Ev('message', 'note_off', smf.msg_attrs('note_off', '2'), bad)]),
+                         ('after-two-eots', [smf.Ev('meta', 'end_of_track', {}, 6), smf.Ev('meta', 'end_of_track', {}, 4),
+                                             smf.Ev('meta', 'text', {'text': StrSym('T')}, bad)]),
+                         ('last-eot-after-eot', [smf.Ev('message', 'note_on', smf.msg_attrs('note_on', '1'), 1), smf.Ev('meta', 'end_of_track', {}, 20),
+                                                 smf.Ev('meta', 'end_of_track', {}, bad)])):
+            smf.check_scenario(ctx, ai, f'time:{label}-{pos}', evs, m, expect_write_error='ValueError')
+            n += 1
+    ctx.floor('R07.4', n, 39)
     # table agreement
     rt = ctx.f.table(codec.SPECS_MOD, 'REALTIME_TYPES')
     for m_, name_, st_ in astq.one_shot_globals(ctx.p):
